@@ -107,9 +107,7 @@ func (s *Service) ScheduleJob(ctx context.Context,
 		select {
 		case <-ctx.Done():
 			s.log.Trace().Str("job", name).Time("scheduled", runtime).Msg("Parent context done; job not running")
-			s.jobsMutex.Lock()
-			delete(s.jobs, name)
-			s.jobsMutex.Unlock()
+			s.removeJob(name, job)
 			finaliseJob(job)
 			monitorJobCancelled(class)
 		case <-job.cancelCh:
@@ -148,9 +146,7 @@ func (s *Service) ScheduleJob(ctx context.Context,
 				job.active.Store(false)
 				break
 			}
-			s.jobsMutex.Lock()
-			delete(s.jobs, name)
-			s.jobsMutex.Unlock()
+			s.removeJob(name, job)
 			s.log.Trace().Str("job", name).Time("scheduled", runtime).Msg("Timer triggered; job running")
 			monitorJobStartedOnTimer(class)
 			jobFunc(ctx)
@@ -204,18 +200,14 @@ func (s *Service) SchedulePeriodicJob(ctx context.Context,
 			runtime, err := runtimeFunc(ctx)
 			if errors.Is(err, scheduler.ErrNoMoreInstances) {
 				s.log.Trace().Str("job", name).Msg("No more instances; period job stopping")
-				s.jobsMutex.Lock()
-				delete(s.jobs, name)
-				s.jobsMutex.Unlock()
+				s.removeJob(name, job)
 				finaliseJob(job)
 				monitorJobCancelled(class)
 				return
 			}
 			if err != nil {
 				s.log.Error().Str("job", name).Err(err).Msg("Failed to obtain runtime; periodic job stopping")
-				s.jobsMutex.Lock()
-				delete(s.jobs, name)
-				s.jobsMutex.Unlock()
+				s.removeJob(name, job)
 				finaliseJob(job)
 				monitorJobCancelled(class)
 				return
@@ -224,9 +216,7 @@ func (s *Service) SchedulePeriodicJob(ctx context.Context,
 			select {
 			case <-ctx.Done():
 				s.log.Trace().Str("job", name).Time("scheduled", runtime).Msg("Parent context done; job not running")
-				s.jobsMutex.Lock()
-				delete(s.jobs, name)
-				s.jobsMutex.Unlock()
+				s.removeJob(name, job)
 				finaliseJob(job)
 				monitorJobCancelled(class)
 				return
@@ -366,6 +356,17 @@ func (s *Service) CancelJobs(ctx context.Context, prefix string) {
 		// It is possible that the job has been removed whist we were iterating, so use the non-erroring version of cancel.
 		s.CancelJobIfExists(ctx, name)
 	}
+}
+
+// removeJob removes a job from the list of jobs, if it is still the job of that name.
+// The name may have been scheduled again since the job was claimed or cancelled,
+// in which case the newer job must remain in the list.
+func (s *Service) removeJob(name string, job *job) {
+	s.jobsMutex.Lock()
+	if current, exists := s.jobs[name]; exists && current == job {
+		delete(s.jobs, name)
+	}
+	s.jobsMutex.Unlock()
 }
 
 // finaliseJob tidies up a job that is no longer in use.
